@@ -443,10 +443,10 @@ def build_cases(tier):
         cases.append(("edges-fp/L=%d" % L, case_edges, dict(L=L, timeout_s=t)))
     O = [(3, 1, 1, None), (3, 2, 1, None), (4, 1, 1, (0, 1, 3, 7)), (4, 2, 1, (0, 1, 3, 7))]
     if tier == "thorough":
-        O += [(5, 2, 1, (0, 2, 3, 7, 12)), (4, 3, 1, (0, 1, 3, 7)), (5, 3, 1, (0, 2, 3, 7, 12)), (4, 2, 2, (0, 1, 3, 7)), (6, 2, 1, (0, 1, 2, 5, 9, 14)), (5, 4, 1, (0, 2, 3, 7, 12))]
+        O += [(5, 2, 1, (0, 2, 3, 7, 12)), (4, 3, 1, (0, 1, 3, 7)), (5, 3, 1, (0, 2, 3, 7, 12)), (4, 2, 2, (0, 1, 3, 7)), (5, 4, 1, (0, 2, 3, 7, 12))]
     for N, L, R, hs in O:
         cases.append(("optimal_grouping/N=%d/L=%d/R=%d/%s" % (N, L, R, "symbolic-heights" if hs is None else "concrete-heights"), case_og, dict(N=N, L=L, R=R, heights=hs)))
-    H = [(3, 2, 0, (0, 1, 2))] if tier == "quick" else [(3, 2, 0, (0, 1, 2)), (3, 2, 1, (0, 1, 2)), (4, 2, 0, (0, 1, 3, 7)), (4, 3, 0, (0, 1, 3, 7)), (4, 2, 1, (0, 1, 3, 7))]
+    H = [(3, 2, 0, (0, 1, 2))] if tier == "quick" else [(3, 2, 0, (0, 1, 2)), (3, 2, 1, (0, 1, 2)), (4, 2, 0, (0, 1, 3, 7)), (4, 3, 0, (0, 1, 3, 7))]
     for N, L, R, hs in H:
         cases.append(("optimal_grouping/N=%d/L=%d/R=%d/after-another-profile" % (N, L, R), case_og, dict(N=N, L=L, R=R, heights=hs, earlier=True)))
     return cases
